@@ -1,7 +1,7 @@
 #!/bin/bash
 # tools/eval_seeds.sh <tier> [seed dirs...] : run each stored seeded change against its property's check on a scratch copy
 tier="${1:-quick}"; shift
-W=/tmp/agv-seeds
+W=${EVAL_W:-/tmp/agv-seeds}
 dirs="$*"; [ -n "$dirs" ] || dirs=$(ls -d /verif/seeded/*/)
 for d in $dirs; do
   d=${d%/}
